@@ -53,6 +53,7 @@ SPEC = {
     "prop": "prun",
     "gen_extra": ["styled"],
     "mod": "ParolModel.Props.C17",
+    "more_mods": ["ParolModel.Props.C17b"],
     "files": FILES,
     "oracle_req": oracle_req,
     "nontrivial": nontrivial,
@@ -70,10 +71,10 @@ SPEC = {
 
 CLAIM = {
     "category": "proof",
-    "text": "LL theorems for all tables, options and inputs: ll_skip_irrelevant (the run on the significant tokens alone has the same result — also the same error at the same token —, the same action trace with the same argument tokens and the same step count), ll_comments_once_in_order (on success the comment callback trace is exactly the comment tokens in input order, each once), ll_all_tokens_in_tree (on success every delivered token, skipped ones included, is a leaf, in order). Proof route: tree erasure (llLoop_core), simulation llCore_skip_irrelevant, big-step characterisation DS/DS_leaves. The LL and LR models are tied to the real parsers by exact differential runs on inputs with interleaved skipped material including %skip lists; on every successful real run the comment trace and the tree are judged by Lean statements, and a metamorphic run of the real parsers compares verdict and action trace with and without skipped material.",
+    "text": "LR theorems (Props/C17b) for ALL tables, options, fuel and inputs without hypotheses: lr_skip_irrelevant (same result, action trace and step count on the significant tokens alone); lr_comments_once_in_order under lrTableValid. LL theorems for all tables, options and inputs: ll_skip_irrelevant (the run on the significant tokens alone has the same result — also the same error at the same token —, the same action trace with the same argument tokens and the same step count), ll_comments_once_in_order (on success the comment callback trace is exactly the comment tokens in input order, each once), ll_all_tokens_in_tree (on success every delivered token, skipped ones included, is a leaf, in order). Proof route: tree erasure (llLoop_core), simulation llCore_skip_irrelevant, big-step characterisation DS/DS_leaves. The LL and LR models are tied to the real parsers by exact differential runs on inputs with interleaved skipped material including %skip lists; on every successful real run the comment trace and the tree are judged by Lean statements, and a metamorphic run of the real parsers compares verdict and action trace with and without skipped material.",
     "design_ref": "DESIGN.md §6 C17",
-    "note": "Trusted: Lean kernel; faithfulness of the models as observed; harness and orchestrator. Not proved: the LR analogues (LRSkipIrrelevant). Finding F20 (LR call_action counted state-skipped tokens as symbols) was found here and fixed.",
-    "technique": "Lean 4 proof (LL) over hand-written model + differential correspondence check + metamorphic run on the implementation",
+    "note": "Trusted: Lean kernel; faithfulness of the models as observed; harness and orchestrator. Finding F20 (LR call_action counted state-skipped tokens as symbols) was found here and fixed.",
+    "technique": "Lean 4 proof (LL and LR) over hand-written model + differential correspondence check + metamorphic run on the implementation",
 }
 
 
